@@ -1092,6 +1092,17 @@ def unquote_model(x):
 
 
 @register
+def _decimal_context_models(f, slf, args, kw):
+    if isinstance(slf, decimal.Context) and getattr(f, '__name__', '') == 'create_decimal' and args:
+        x = args[0]
+        d = _ctor_models(decimal.Decimal, None, (x,), {})
+        if isinstance(d, SDecimal) and len(d.digits.c) > slf.prec:
+            raise Unsupported('Context.create_decimal rounds a coefficient longer than the context precision')
+        return d
+    return NO_MODEL
+
+
+@register
 def _url_models(f, slf, args, kw):
     if f is _urlparse.unquote and len(args) == 1 and not kw:
         return unquote_model(args[0])
